@@ -134,7 +134,7 @@ Print Assumptions C06_position_in_range.
 
 
 (** * Strict success implies the identical tolerant tree (proofs in [Proofs/ParserAgree.v]) *)
-From PLV Require Import Base.
+From PLV Require Import Proofs.ParserAgree.
 
 Theorem C06_agrees : forall s cx f t o p,
   run s false cx f t = Ok o p -> run s true cx f t = Ok o p.
